@@ -272,6 +272,16 @@ def run(ctx):
     others = [n for n in ast.walk(cn) if isinstance(n, ast.Attribute) and 'NameOID.' in (dotted(n) or '') and not (dotted(n) or '').endswith('NameOID.COMMON_NAME')]
     ctx.check(bool(oids) and not others, 'C17.R4', 'get_common_names_from_certificate|oid', '%s:%s' % (AUTH_UTILS, cn.lineno),
               'common names come from the subject attributes for NameOID.COMMON_NAME', 'common names are not taken from NameOID.COMMON_NAME')
+    # every common name is reported: the list is built from the whole subject, nothing is selected, indexed or cut
+    cparam = params(cn, skip_self=False)[0] if cn.args.args else None
+    gcalls = [c for c in ast.walk(cn) if isinstance(c, ast.Call) and isinstance(c.func, ast.Attribute) and c.func.attr == 'get_attributes_for_oid']
+    whole = [c for c in gcalls if isinstance(c.func.value, ast.Attribute) and c.func.value.attr == 'subject' and isinstance(c.func.value.value, ast.Name) and c.func.value.value.id == cparam]
+    cuts = [x for x in ast.walk(cn) if (isinstance(x, ast.Subscript) and not isinstance(x.ctx, ast.Store)) or (isinstance(x, ast.comprehension) and x.ifs) or isinstance(x, (ast.Break, ast.If, ast.IfExp))
+            or (isinstance(x, ast.Call) and call_name(x) in ('next', 'set', 'min', 'max', 'sorted'))]
+    ctx.check(len(gcalls) == 1 and len(whole) == 1 and not cuts, 'C17.R4', 'get_common_names_from_certificate|all-common-names', '%s:%s' % (AUTH_UTILS, cn.lineno),
+              'the list holds the value of every commonName attribute of the whole subject (one query on certificate.subject, no selection)',
+              'the common-name list is not the complete list of commonName attributes of the subject (query on %s; selecting constructs at lines %s): a certificate with several common names - e.g. in one multi-valued RDN - can be reported as having one, and the exactly-one-name test passes' % (
+                  [U(c.func.value) for c in gcalls], sorted(set(getattr(x, 'lineno', 0) for x in cuts))))
     # SLUGS
     stree = src.tree(SLUGS)
     slc = get_class(stree, 'SLUGSConnector')
